@@ -1,7 +1,8 @@
 (* Case-line interpreter for C19 (evaluated both by the extracted driver and inside Coq).
    A case is a scripted history on one fresh tracker: a sequence of events, 7 tokens each
      <dir> <flags> <src port> <dst port> <now ms> <tsval> <tsecr>
-   dir:   c = segment 10.0.0.1 -> 10.0.0.2,  s = segment 10.0.0.2 -> 10.0.0.1
+   dir:   c = segment 10.0.0.1 -> 10.0.0.2,  s = segment 10.0.0.2 -> 10.0.0.1          (IPv4)
+          c6 = segment 2001:db8::1 -> 2001:db8::2,  s6 = the reverse                    (IPv6)
    flags: syn | synack | ack | pshack | finack | f<decimal flag byte>
    now:   the millisecond clock reading taken while the segment is processed (u64)
    Result: one token per event, joined by ';' :
@@ -32,6 +33,8 @@ Definition parse_flags (t : bytes) : option Z :=
 
 Definition ip_a : Z := 167772161.   (* 10.0.0.1 *)
 Definition ip_b : Z := 167772162.   (* 10.0.0.2 *)
+Definition ip6_a : Z := 42540766411282592856903984951653826561.   (* 2001:db8::1 *)
+Definition ip6_b : Z := 42540766411282592856903984951653826562.   (* 2001:db8::2 *)
 
 Definition parse_event (d f sp_ dp now tv te : bytes) : option (segment * Z) :=
   match parse_flags f, read_Z sp_, read_Z dp, read_Z now, read_Z tv, read_Z te with
@@ -43,6 +46,8 @@ Definition parse_event (d f sp_ dp now tv te : bytes) : option (segment * Z) :=
                                sg_tsval := v; sg_tsecr := e |}, t) in
         if bytes_eqb d (bs "c") then mk ip_a ip_b
         else if bytes_eqb d (bs "s") then mk ip_b ip_a
+        else if bytes_eqb d (bs "c6") then mk ip6_a ip6_b
+        else if bytes_eqb d (bs "s6") then mk ip6_b ip6_a
         else None
       else None
   | _, _, _, _, _, _ => None
@@ -99,6 +104,10 @@ Definition run_line (l : bytes) : bytes :=
 Example run_line_ex :
   run_line (bs "c syn 40000 80 1000 5000 0 s synack 80 40000 1010 777000 5000 c ack 40000 80 2000 6000 777000 s ack 80 40000 2010 777250 6000")
   = bs "-;-;client 1000 0 0 0 49;server 250 0 0 51 198	-;-;client 1000 0 0 0 49;server 250 0 0 51 198	0".
+Proof. vm_compute. reflexivity. Qed.
+Example run_line_ex6 :
+  run_line (bs "s6 synack 443 50000 0 1000 0 s ack 443 50000 5 9000 0 s6 ack 443 50000 120 1012 0 c6 ack 50000 443 130 7 0")
+  = bs "-;-;server 100 0 0 0 497;-	-;-;server 100 0 0 0 497;-	0".
 Proof. vm_compute. reflexivity. Qed.
 
 Require Extraction.
